@@ -32,6 +32,19 @@ pub struct Zw {
     pub e: i32,
 }
 
+/// x * 2^e without the spurious overflow / flush to zero of `powi` for |e| > 1023
+pub fn ldexp(mut x: f64, mut e: i32) -> f64 {
+    while e > 1000 {
+        x *= 2f64.powi(1000);
+        e -= 1000;
+    }
+    while e < -1000 {
+        x *= 2f64.powi(-1000);
+        e += 1000;
+    }
+    x * 2f64.powi(e)
+}
+
 fn ovf<T>(x: Option<T>) -> T {
     match x {
         Some(v) => v,
@@ -219,8 +232,7 @@ impl Ring for Zw {
         let c: Vec<f64> = self.c.iter().map(|&x| x as f64).collect();
         let re = c[0] + (c[1] - c[3]) * s;
         let im = c[2] + (c[1] + c[3]) * s;
-        let sc = 2f64.powi(self.e);
-        Complex64::new(re * sc, im * sc)
+        Complex64::new(ldexp(re, self.e), ldexp(im, self.e))
     }
     fn exact() -> bool {
         true
